@@ -92,7 +92,7 @@ func init() {
 		},
 		Functions: []string{"(*generator.Generator).Generate", "(*generator.Generator).preparePlugins", "(*generator.FileManager).Feed", "(*generator.FileManager).BuildResponse",
 			"generator.newInsertionPointReplacer", "(*generator.insertionPointReplacer).Add/Replace", "(*generator.Generator).Persist (error response only)", "plugin.Pack", "plugin.InsertionPoint"},
-		Bounds:      "up to 2 (quick) / 3 (thorough) plugins, each answering with 0..2 items chosen by decision variables from 6 shapes (duplicate of the backend's file, same name with other content, new file, patch addressed by name, patch addressed by position, a name of the form the renamer produces), at most one failing plugin; option values are symbolic bytes",
+		Bounds:      "up to 2 plugins (thorough also 3 plugins with one item each and all-or-no options), each answering with 0..2 items chosen by decision variables from 6 shapes (duplicate of the backend's file, same name with other content, new file, patch addressed by name, patch addressed by position, a name of the form the renamer produces), at most one failing plugin; option values are symbolic bytes",
 		Assumptions: []string{"the backend and the plugins are stubs behind the real Backend / Plugin interfaces; file contents are concrete tokens", "regexp (insertion point scan) is a concrete call-out to the host regexp package"},
 	}
 	register(&Prop{ID: "C11", Variants: []*Prop{codec, gen},
